@@ -7,6 +7,7 @@ package props
 //            getters; model encode/decode on the same header (correspondence)
 //   hostile  header objects with ill-typed / ill-encoded members: goat Unmarshal vs model
 //   msg      real signed / encrypted messages with headers in every position and serialisation
+//   hist     histories of API calls on header objects + aliasing probes (c11_hist.go)
 //   jwejson  JWE JSON syntax matrix: general/flattened, absent protected, aad, duplicated names (c11_jwejson.go)
 //   crit     every crit list over a small universe in every position (c11_msg.go)
 
@@ -35,6 +36,7 @@ type c11Case struct {
 	Msg     *c11Msg  `json:"msg,omitempty"`
 	Crit    *c11Crit `json:"crit,omitempty"`
 	JJ      *c11JJ   `json:"jj,omitempty"`
+	Hist    *c11Hist `json:"hist,omitempty"`
 }
 
 func (cs c11Case) pkg() string {
@@ -346,6 +348,10 @@ func c11Exec(c *vf.Ctx, d *vf.Driver, p *c11Pool, cs c11Case) {
 		x.execMsg()
 		b, _ := json.Marshal(cs.Msg)
 		c.Case("msg/"+cs.pkg()+"/"+string(b), true)
+	case "hist":
+		x.execHist()
+		b, _ := json.Marshal(cs.Hist)
+		c.Case("hist/"+cs.pkg()+"/"+string(b), true)
 	case "jwejson":
 		x.execJJ()
 		b, _ := json.Marshal(cs.JJ)
@@ -400,6 +406,11 @@ func runC11(c *vf.Ctx) {
 		for i := 0; i < 120*scale; i++ {
 			isJWE := r.Bool()
 			c11Exec(c, d, p, c11Case{Kind: "hostile", JWE: isJWE, Hostile: string(c11GenHostile(r, p, isJWE))})
+		}
+		for i := 0; i < 60*scale; i++ {
+			isJWE := r.Bool()
+			hs := c11GenHist(r, p, isJWE)
+			c11Exec(c, d, p, c11Case{Kind: "hist", JWE: isJWE, Hist: &hs})
 		}
 		for i := 0; i < 60*scale; i++ {
 			isJWE := r.Bool()
